@@ -113,6 +113,10 @@ Dups == [
                           SBlock(<<SDecl(EObj(<<Pair(EStr(<<102>>), x), Pair(x, y)>>),
                                          EObj(<<Pair(EStr(<<102>>), EStr(<<112>>)), Pair(EStr(<<112>>), EInt(1)), Pair(EStr(<<113>>), EInt(2))>>)),
                                    SPrint(x), SPrint(y)>>)>>,
+  builtinredecl |-> <<SPrint(EInt(1)), SDecl(EVar(N_print), EInt(1))>>,
+  builtinredeclfn |-> <<SPrint(EInt(1)), SFn(N_print, <<x>>, FALSE, <<>>)>>,
+  builtinshadow |-> <<SBlock(<<SDecl(EVar(N_print), EInt(1)), SDecl(y, EVar(N_print))>>), SPrint(EInt(2))>>,
+  builtinassign |-> <<SDecl(y, EVar(N_print)), SAssign(EVar(N_print), EInt(1)), SExpr(ECall(y, <<EVar(N_print)>>))>>,
   restsame   |-> <<SPrint(EInt(1)), SDecl(EPatRest(<<x, x>>), EList(<<EInt(1), EInt(2)>>))>>,
   objrestsame |-> <<SPrint(EInt(1)), SDecl(EObj(<<Short(x), PCollect(x)>>), EObj(<<Pair(EStr(NX), EInt(1))>>))>>
 ]
